@@ -39,6 +39,8 @@ def check(index, ctx):
                     ctx.undecided("P", run.label, "constructs outside the analysed subset", "")
                     continue
                 agg = _pipe.evs(res, "aggregator_call")
+                for _b in _pipe.evs(res, "aggregator_bypass"):
+                    ctx.violated("P", f"{_layout.short_fn(_b)}: aggregator applied through forward()", "the aggregator's forward() is called directly instead of aggregator(matrix): hooks registered on the aggregator (nn.Module.__call__) are skipped, so what is deposited is not aggregator(J)", _b["loc"])
                 ones = [c for c in _pipe.evs(res, "create") if c["fn"] == "ones_like" and c["like"] == ["losses[i]"]]
                 task = [e for e in _pipe.evs(res, "autograd") if isinstance(e["outputs"], dict) and e["outputs"].get("atoms") == ["losses[i]"]]
                 ok = len(agg) == 1 and bool(ones) and bool(task)
